@@ -2,6 +2,7 @@ import Model.Based
 import Proofs.C20
 import Proofs.C20Hist
 import Proofs.C20DA
+import Proofs.C20Crash
 import Gen.C20
 
 /-! # C20 — based sequencer: DA-ordered, size-bounded, restart-safe batches
@@ -24,6 +25,16 @@ a push-back consumes its height):
 * what did not fit comes first in the next batch (`C20_pushback_first_call`, `C20_pushback_first`),
   and a limit smaller than the carry-over head releases nothing and stays put;
 * nothing is stuck (`C20_drains`): later heights are reached and every tx is released.
+
+C20 quantifies over restarts BETWEEN ANY TWO CALLS; for those every clause above is proved in full.
+Crashes INSIDE a call (after k ≥ 1 of its durable writes) are BEYOND the property's quantifier; they
+are nevertheless part of the model (last section) so that the correspondence covers every crash
+point: `C20_crash_inside_call_full` is a statement the property does not make, its failure is
+documented by theorems (`C20_crash_inside_call_fails`, `C20_crash_pop_saved_loses`,
+`C20_crash_torn_pushback_duplicates`) and is NOT a finding; what does hold there is proved for all
+histories (`C20_crash_accounting`, `C20_crash_loses_at_most_the_undelivered_answer`,
+`C20_crash_exactly_once`); `C20_crash_before_first_write` links the two: the crash point `k = 0` IS
+a restart between two calls.
 
 The inputs that refuted the clauses before the repair are kept as kernel-checked
 "now behaves" theorems; their runs are also what the real code does (`Gen.C20`). -/
@@ -412,5 +423,153 @@ example : let d : DA := { w1DA with errGet := [2] }
 /-- `AllDrain` is satisfiable and `C20_drains` applies: heights 1 and 2 of `w1DA`, limit 5, 6 calls -/
 example : stream w1DA.content 1 2 <+: released ⟨1, 2⟩ (viewSteps (List.replicate 6 (w1DA, 5))) := by
   decide +kernel
+
+/-! ## Crashes INSIDE a call, at every durable write
+
+`crashAt s (call).writes k`: the process dies when the first `k` durable writes of the call are on
+disk (pop's `Save`; push-back's `Save` when a height did not fit; `Put` of the scan position), the
+answer is NOT delivered, the caller keeps its `LastBatchData`, a new sequencer starts on that image.
+BEYOND THE PROPERTY'S QUANTIFIER: C20 speaks of restarts between any two calls, which is the crash
+point `k = 0` (`C20_crash_before_first_write`) and is proved in full above (`C20_da_order`, …).  The
+statement below extends the invariant to `k ≥ 1` with "released" = delivered to the caller; it is
+FALSE of the current code (the answer is persisted as handed out before it is returned; histogram
+keys `beyond-quantifier/dropped/pop-saved-before-answer-returned`,
+`…/scan-position-saved-before-answer-returned`, `beyond-quantifier/duplicated|reordered/pushback-saved-before-scan-position`).
+Because the property does not demand it, this is documented by kernel-checked witnesses and NOT
+listed as a finding; what is true at those crash points is proved for all histories, and the
+monitor reports (`C20/crash/unaccounted/…`) only what `C20_crash_accounting` does not allow. -/
+
+/-- what reached the caller in a history with crashes inside calls -/
+def deliveredC (cfg : Cfg) (evs : List CStep) : List Item := deliveredOf (playC cfg {} [] evs).log
+def finalC (cfg : Cfg) (evs : List CStep) : St := (playC cfg {} [] evs).st
+def logC (cfg : Cfg) (evs : List CStep) : List Chunk := (playC cfg {} [] evs).log
+
+/-- A statement BEYOND C20's quantifier (the property only speaks of restarts between two calls):
+`C20_da_order` for histories in which calls may die after any number of their
+durable writes — what was delivered, followed by the persisted carry-over, is the DA stream up to
+the persisted scan position. -/
+def C20_crash_inside_call_full : Prop :=
+  ∀ (cfg : Cfg) (c : Content), IdsNotAhead c → ∀ evs : List CStep, AllAnswerC c evs →
+    ∃ n, deliveredC cfg evs ++ flat (finalC cfg evs).queue = stream c cfg.daStart n ∧
+      persistedPos cfg (finalC cfg evs) = cfg.daStart + n
+
+/-- DA of the crash witnesses: height 1 holds `aa01, aa02, aa03`, head 3 -/
+def cwDA : DA := { head := 3, blobs := [(1, [[0xaa, 1], [0xaa, 2], [0xaa, 3]])] }
+
+/-- **The extended statement fails** (not a finding: C20 does not quantify over crashes inside a
+call): one call (limit 0 = default: everything fits) that dies after its
+last write (`P,S`), i.e. between the `Put` of the scan position and the `return`: nothing was
+delivered, the carry-over is empty, the persisted position is 3 — the three txs of height 1 are lost. -/
+theorem C20_crash_inside_call_fails : ¬ C20_crash_inside_call_full := by
+  intro h
+  obtain ⟨n, h1, h2⟩ := h ⟨1, 2⟩ cwDA.content (DA.idsNotAhead _) [.crash cwDA.fetch 0 2]
+    ⟨DA.answers cwDA cwDA (DA.sees_refl _), trivial⟩
+  have e1 : deliveredC ⟨1, 2⟩ [.crash cwDA.fetch 0 2] ++ flat (finalC ⟨1, 2⟩ [.crash cwDA.fetch 0 2]).queue = [] := by
+    decide +kernel
+  have e2 : persistedPos ⟨1, 2⟩ (finalC ⟨1, 2⟩ [.crash cwDA.fetch 0 2]) = 3 := by decide +kernel
+  rw [e1] at h1; rw [e2] at h2
+  have hn : n = 2 := by simp at h2; omega
+  subst hn
+  revert h1; decide +kernel
+
+/-- the same loss at the FIRST write: `aa03` is carried over, the next call pops it, saves the pop
+and dies (`k = 1` of `P,S`): never delivered, not in the persisted queue, position already past it -/
+theorem C20_crash_pop_saved_loses :
+    let evs : List CStep := [.call cwDA.fetch 5, .crash cwDA.fetch 5 1, .call cwDA.fetch 5, .call cwDA.fetch 5]
+    (deliveredC ⟨1, 2⟩ evs).map (·.tx) = [[0xaa, 1], [0xaa, 2]] ∧ (finalC ⟨1, 2⟩ evs).queue = [] ∧
+    (finalC ⟨1, 2⟩ evs).scanP = some 3 ∧ SafeCrashes ⟨1, 2⟩ {} [] evs ∧
+    logC ⟨1, 2⟩ evs = [.delivered (mkItems 1 0 [[0xaa, 1], [0xaa, 2]]),
+      .crashed (mkItems 1 2 [[0xaa, 3]]) (mkItems 1 2 [[0xaa, 3]]), .delivered [], .delivered []] := by
+  decide +kernel
+
+/-- the crash point excluded from the partial theorems: between the push-back's `Save` and the
+scan position's `Put` (`k = 2` of `P,P,S`).  The restarted sequencer releases the carried-over END
+of the height first, then scans the height again: `aa03` before `aa01` (reordered) and twice. -/
+theorem C20_crash_torn_pushback_duplicates :
+    let evs : List CStep := [.crash cwDA.fetch 5 2, .call cwDA.fetch 5, .call cwDA.fetch 5]
+    (deliveredC ⟨1, 2⟩ evs).map (·.tx) = [[0xaa, 3], [0xaa, 1], [0xaa, 2], [0xaa, 3]] ∧
+    ¬ SafeCrashes ⟨1, 2⟩ {} [] evs := by
+  decide +kernel
+
+/-- **Accounting of every history with crashes at the safe points** (before the first write, after
+the pop's save, after the last write; any calls, limits, DA fault patterns, restarts in between):
+what was delivered and what the crashes lost, in the order of the calls, followed by the persisted
+carry-over, IS the DA stream up to the persisted scan position; and what a crash lost is a prefix
+of the undelivered answer of the call that died. -/
+theorem C20_crash_accounting (cfg : Cfg) (c : Content) (hc : IdsNotAhead c) (evs : List CStep)
+    (hA : AllAnswerC c evs) (hs : SafeCrashes cfg {} [] evs) :
+    (∃ n, accountOf (logC cfg evs) ++ flat (finalC cfg evs).queue = stream c cfg.daStart n ∧
+      persistedPos cfg (finalC cfg evs) = cfg.daStart + n) ∧ LossesBounded (logC cfg evs) := by
+  have h := playC_inv c cfg hc evs hA {} [] [] (inv_init c cfg) hs
+  exact ⟨by simpa [logC, finalC] using h.1.str, h.2⟩
+
+/-- **What holds beyond the quantifier.** In every such history nothing is reordered or duplicated — what was
+delivered is a subsequence of the DA stream below the persisted scan position — and the ONLY
+transactions of that stream that are neither delivered nor in the persisted carry-over are those of
+the undelivered answer of a call that died (a prefix of it: its popped part after the pop's save,
+all of it after the last write). -/
+theorem C20_crash_loses_at_most_the_undelivered_answer (cfg : Cfg) (c : Content) (hc : IdsNotAhead c)
+    (evs : List CStep) (hA : AllAnswerC c evs) (hs : SafeCrashes cfg {} [] evs) :
+    ∃ n, persistedPos cfg (finalC cfg evs) = cfg.daStart + n ∧
+      (deliveredC cfg evs).Sublist (stream c cfg.daStart n) ∧
+      ∀ it ∈ stream c cfg.daStart n, it ∈ deliveredC cfg evs ∨ it ∈ flat (finalC cfg evs).queue ∨
+        ∃ und lost, Chunk.crashed und lost ∈ logC cfg evs ∧ it ∈ lost ∧ lost <+: und := by
+  obtain ⟨⟨n, h1, h2⟩, hb⟩ := C20_crash_accounting cfg c hc evs hA hs
+  refine ⟨n, h2, ?_, ?_⟩
+  · rw [← h1]
+    exact List.Sublist.trans (delivered_sublist_account _) (List.sublist_append_left _ _)
+  · intro it hit
+    rw [← h1, List.mem_append] at hit
+    rcases hit with hit | hit
+    · rcases mem_account _ it hit with hd | ⟨u, lo, hm, hl⟩
+      · exact Or.inl hd
+      · exact Or.inr (Or.inr ⟨u, lo, hm, hl, lossesBounded_mem _ hb u lo hm⟩)
+    · exact Or.inr (Or.inl hit)
+
+/-- no id is delivered twice when the DA ids are distinct -/
+theorem C20_crash_exactly_once (cfg : Cfg) (c : Content) (hc : IdsNotAhead c)
+    (evs : List CStep) (hA : AllAnswerC c evs) (hs : SafeCrashes cfg {} [] evs)
+    (hd : ∀ n, ((stream c cfg.daStart n).map (·.id)).Nodup) :
+    ((deliveredC cfg evs).map (·.id)).Nodup := by
+  obtain ⟨n, _, h, _⟩ := C20_crash_loses_at_most_the_undelivered_answer cfg c hc evs hA hs
+  exact List.Nodup.sublist (h.map _) (hd n)
+
+/-- the link to the property as stated: the crash point `k = 0` (before the first write) IS a
+restart between two calls — same image, nothing lost — so C20's own quantifier is the `k = 0`
+fragment of these histories, for which `C20_da_order` etc. hold in full -/
+theorem C20_crash_before_first_write (cfg : Cfg) (da : Nat → Fetch) (s : St) (last : List Bytes) (m : Nat) (ws : List Wr) :
+    crashAt s ws 0 = restart s ∧ lostAt cfg da s last m 0 = [] :=
+  ⟨crashAt_zero s ws, by simp [lostAt]⟩
+
+/-- a crash after the last write restarts in exactly the state the completed call leaves (the
+writes replayed on the old image ARE the new image): the loss is the undelivered answer, no more -/
+theorem C20_crash_after_last_write (cfg : Cfg) (da : Nat → Fetch) (s : St) (m k : Nat)
+    (hk : (getNextBatch cfg da s { max := m }).writes.length ≤ k) :
+    crashAt s (getNextBatch cfg da s { max := m }).writes k = (getNextBatch cfg da s { max := m }).st ∧
+    lostAt cfg da s [] m k = (getNextBatch cfg da s { max := m }).resp.items := by
+  refine ⟨crashAt_all cfg da s m k hk, ?_⟩
+  have := gnb_writes_len cfg da s m
+  have h0 : k ≠ 0 := by omega
+  simp [lostAt, h0, hk]
+
+/-- a crash after the pop's save and before the next write loses exactly what the call popped
+from the persisted carry-over — nothing when there was no carry-over to pop -/
+theorem C20_crash_after_pop_save (cfg : Cfg) (da : Nat → Fetch) (s : St) (m : Nat) :
+    lostAt cfg da s [] m 1 = (popQueue (effMax m) s.queue 0 0).taken ∧
+    (s.queue = [] → lostAt cfg da s [] m 1 = []) := by
+  have := gnb_writes_len cfg da s m
+  have h : ¬ (getNextBatch cfg da s { max := m }).writes.length ≤ 1 := by omega
+  refine ⟨by simp [lostAt, h], fun hq => ?_⟩
+  simp [lostAt, h, hq, popQueue]
+
+/-- non-vacuity: a history with crashes at all three safe points satisfies the hypotheses, and its
+accounting is the stream with one tx lost -/
+example : let evs : List CStep := [.crash cwDA.fetch 5 0, .crash cwDA.fetch 5 1, .call cwDA.fetch 5,
+      .restart, .crash cwDA.fetch 5 7, .call cwDA.fetch 5]
+    SafeCrashes ⟨1, 2⟩ {} [] evs ∧ AllAnswerC cwDA.content evs ∧
+    (deliveredC ⟨1, 2⟩ evs).map (·.tx) = [[0xaa, 1], [0xaa, 2]] ∧
+    accountOf (logC ⟨1, 2⟩ evs) = stream cwDA.content 1 2 :=
+  ⟨by decide +kernel, ⟨DA.answers _ _ (DA.sees_refl _), DA.answers _ _ (DA.sees_refl _), DA.answers _ _ (DA.sees_refl _),
+    DA.answers _ _ (DA.sees_refl _), DA.answers _ _ (DA.sees_refl _), trivial⟩, by decide +kernel, by decide +kernel⟩
 
 end Spec.C20
